@@ -66,6 +66,9 @@ def eval_atom(a, env):
     if a[0] == "f" and a[1] == "abs":
         v = eval_poly(a[2], env)
         return None if v is None else abs(v)
+    if a[0] == "f" and a[1] == "re":
+        # projection of the inner number type to its real part: the identity for the sampled (float) instantiation
+        return eval_poly(a[2], env)
     if a[0] == "u":
         return eval_poly(a[1], env)
     return None
@@ -128,6 +131,29 @@ def run_paths(F, body, args_fn, hooks=None, oracle=None):
     for ctx, val in explore(thunk, oracle):
         it, args = thunk.last
         out.append((ctx, val, it, args))
+    return out
+
+
+def all_paths(F, body, args_fn, hooks=None, oracle=None, extern=None):
+    """[(suffix, value, args)] for every decision-tree path of body"""
+    rows = []
+
+    def thunk(ctx):
+        it = Interp(F, DOMK, ctx=ctx, hooks=hooks, extern=extern)
+        args = args_fn()
+        v = None
+        try:
+            v = it.call_body(body, args)
+            return v
+        finally:
+            rows.append([ctx, v, args])
+    res = explore(thunk, oracle)
+    for row, (ctx, val) in zip(rows, res):
+        row[1] = val       # a panic is reported as the path's value
+    out = []
+    for ctx, v, args in rows:
+        sfx = "" if len(rows) == 1 else "|path=" + path_descr(ctx)
+        out.append((sfx, v, args))
     return out
 
 
@@ -229,9 +255,28 @@ def _uninit(it, args, e):
     raise Unsupported("uninit arguments")
 
 
+def _identity(it, args, e):
+    a = [unref(x) for x in args]
+    if len(a) == 2 and all(isinstance(x, DimV) for x in a):
+        d = it.dom.named("δ")
+        if hasattr(d, "subst"):
+            return _Mat(Poly.var("δ", ("$r", "$c")), (a[0].name, a[1].name))
+    raise Unsupported("identity_generic arguments")
+
+
+def _from_element(it, args, e):
+    a = [unref(x) for x in args]
+    if len(a) == 3 and isinstance(a[0], DimV) and isinstance(a[1], DimV) and isinstance(a[2], Sc):
+        return _Mat(a[2].v, (a[0].name, a[1].name))
+    raise Unsupported("from_element_generic arguments")
+
+
 _BUF = "<nalgebra::DefaultAllocator as nalgebra::allocator::Allocator<R, C>>::Buffer"
 NALGEBRA = {
     "nalgebra::base::construction::<impl nalgebra::Matrix<T, R, C, %s<T>>>::zeros_generic" % _BUF: _zeros,
+    "nalgebra::base::construction::<impl nalgebra::Matrix<T, R, C, %s<T>>>::identity_generic" % _BUF: _identity,
+    "nalgebra::base::construction::<impl nalgebra::Matrix<T, R, C, %s<T>>>::from_element_generic" % _BUF: _from_element,
+    "nalgebra::base::construction::<impl nalgebra::Matrix<T, R, C, %s<T>>>::repeat_generic" % _BUF: _from_element,
     "nalgebra::base::construction::<impl nalgebra::Matrix<std::mem::MaybeUninit<T>, R, C, %sUninit<T>>>::uninit" % _BUF: _uninit,
 }
 
